@@ -535,10 +535,10 @@ size_t malloc_usable_size(void* p) {
 
 MC_HARNESS(pipeline) {
   int prop = (int)P("prop", 27), n = (int)P("n", 1), items = (int)P("items", 2);
-  // wd=1 (default for C29): a modelled watchdog thread turns "pipeline() never returns" into a violation.  The idle
+  // wd=1 (default): a modelled watchdog thread turns "pipeline() never returns" into a violation.  The idle
   // workers' 100 ms back-stop timers keep firing in such a state, so the engine sees neither a deadlock nor a livelock
   // and would only hit its step horizon ("truncated").
-  bool wd = P("wd", prop == 29 ? 1 : 0) != 0;
+  bool wd = P("wd", 1) != 0;
   int wthreads = n + (wd ? 1 : 0); // threads with worker-sized stacks
   g_canon = wthreads >= 2 ? (wthreads > kCanon ? kCanon : wthreads) : 0;
   // wildcards (explored exhaustively through mc::choose, cost 0): '*' in st = any of p/2/u; f<k>=-2 = any transform kind of
@@ -571,11 +571,15 @@ MC_HARNESS(pipeline) {
   if (wd) {
     // started before the pool exists and parked at once, woken only when everything (including ~ThreadPool) is over or
     // by the virtual clock: while the pipeline runs it is never an alternative for the scheduler, so it adds no branching
-    mc::spawn([&finished, &wd_ready] {
+    mc::spawn([&finished, &wd_ready, prop] {
       const uint64_t kHangNs = 3000000000ull; // 30 back-stop periods of virtual time
+      const long kHangSteps = 200000;         // ~100x the length of a normal execution
+      mc::Shared<long> polls{0};              // the predicate is evaluated once per scheduling step while we are parked
       wd_ready.set(1);
-      mc::block_until([&finished] { return finished.get() != 0 || mc::now_ns() > kHangNs; });
-      PCHECK(finished.get() != 0, "C29: pipeline() has not returned after 3 s of virtual time in which nothing but the pool's idle back-stop timers ran (hang)");
+      mc::block_until([&finished, &polls] { return finished.get() != 0 || mc::now_ns() > kHangNs || polls.add(1) > kHangSteps; });
+      PCHECK(finished.get() != 0,
+             "C%d: pipeline() has not returned after %s (hang)", prop,
+             polls.get() > kHangSteps ? "200000 further scheduling steps of busy waiting" : "3 s of virtual time in which only the pool's idle back-stop timers ran");
     });
     mc::block_until([&wd_ready] { return wd_ready.get() != 0; });
   }
